@@ -103,10 +103,44 @@ Proof.
   - destruct (N.ltb_spec a b); [lia|]. destruct (N.eqb_spec a b); [lia|reflexivity].
 Qed.
 
+(* ---------- the comparison surface: every form is the raw-value comparison ---------- *)
+Lemma a_lt_ltb a b : a_lt a b = (a <? b).
+Proof. unfold a_lt, a_partial_cmp, a_cmp. destruct (N.ltb_spec a b), (N.eqb_spec a b); reflexivity. Qed.
+Lemma a_le_leb a b : a_le a b = (a <=? b).
+Proof. unfold a_le, a_partial_cmp, a_cmp. destruct (N.ltb_spec a b), (N.eqb_spec a b), (N.leb_spec a b); try lia; reflexivity. Qed.
+Lemma a_gt_ltb a b : a_gt a b = (b <? a).
+Proof. unfold a_gt, a_partial_cmp, a_cmp. destruct (N.ltb_spec a b), (N.eqb_spec a b), (N.ltb_spec b a); try lia; reflexivity. Qed.
+Lemma a_ge_leb a b : a_ge a b = (b <=? a).
+Proof. unfold a_ge, a_partial_cmp, a_cmp. destruct (N.ltb_spec a b), (N.eqb_spec a b), (N.leb_spec b a); try lia; reflexivity. Qed.
+Lemma a_max_max a b : a_max a b = N.max a b.
+Proof. unfold a_max, a_cmp. destruct (N.ltb_spec a b), (N.eqb_spec a b); cbn; lia. Qed.
+Lemma a_min_min a b : a_min a b = N.min a b.
+Proof. unfold a_min, a_cmp. destruct (N.ltb_spec a b), (N.eqb_spec a b); cbn; lia. Qed.
+Lemma a_clamp_val a lo hi : lo <= hi -> a_clamp a lo hi = Val (N.max lo (N.min a hi)).
+Proof.
+  intros H. unfold a_clamp. rewrite a_le_leb, a_lt_ltb, a_gt_ltb.
+  destruct (N.leb_spec lo hi); [|lia]. cbn [passert bind]. f_equal.
+  destruct (N.ltb_spec a lo); [lia|]. destruct (N.ltb_spec hi a); lia.
+Qed.
+Lemma a_clamp_panic a lo hi : hi < lo -> a_clamp a lo hi = Panic 1.
+Proof. intros H. unfold a_clamp. rewrite a_le_leb. destruct (N.leb_spec lo hi); [lia|reflexivity]. Qed.
+Lemma compare_ltb a b : (match a ?= b with Lt => true | _ => false end) = (a <? b).
+Proof. destruct (N.compare_spec a b), (N.ltb_spec a b); try lia; reflexivity. Qed.
+Lemma compare_leb a b : (match a ?= b with Gt => false | _ => true end) = (a <=? b).
+Proof. destruct (N.compare_spec a b), (N.leb_spec a b); try lia; reflexivity. Qed.
+Lemma compare_gtb a b : (match a ?= b with Gt => true | _ => false end) = (b <? a).
+Proof. destruct (N.compare_spec a b), (N.ltb_spec b a); try lia; reflexivity. Qed.
+Lemma compare_geb a b : (match a ?= b with Lt => false | _ => true end) = (b <=? a).
+Proof. destruct (N.compare_spec a b), (N.leb_spec b a); try lia; reflexivity. Qed.
+Lemma val_is_refl v : val_is v (of_val v) = true.
+Proof. unfold val_is, of_val. cbn [o_kind o_val]. rewrite !N.eqb_refl. reflexivity. Qed.
+Lemma val_is_b2n (x : bool) : val_is (b2n x) (of_val (if x then 1 else 0)) = true.
+Proof. destruct x; apply val_is_refl. Qed.
+
 Lemma C19_model_ok_lemma c : c_a c < W64 -> c_b c < W64 -> ok_C19 c (run_C19 c) = true.
 Proof.
-  destruct c as [m op a b]; cbn [c_a c_b c_op c_mode]. intros Ha Hb.
-  unfold ok_C19, run_C19; cbn [c_a c_b c_op c_mode].
+  destruct c as [m op a b cc]; cbn [c_a c_b c_c c_op c_mode]. intros Ha Hb.
+  unfold ok_C19, run_C19; cbn [c_a c_b c_c c_op c_mode].
   destruct op.
   - unfold a_checked_add, checked_add, some_if. destruct (a + b <? W64); cbn; rewrite ?N.eqb_refl; reflexivity.
   - unfold a_checked_sub, checked_sub, some_if. destruct (b <=? a); cbn; rewrite ?N.eqb_refl; reflexivity.
@@ -142,6 +176,17 @@ Proof.
       rewrite N.mod_add by (rewrite W64_val; lia). rewrite N.mod_small by lia. apply N.eqb_refl.
     + destruct m; cbn; [reflexivity|apply N.eqb_refl].
   - destruct (a_unchecked_align_up m a b); reflexivity.
+  - (* partial_cmp *) unfold a_partial_cmp, a_cmp, ord_code. rewrite compare_code. cbn [of_opt]. apply (val_is_refl).
+  - rewrite compare_ltb, a_lt_ltb. apply val_is_b2n.
+  - rewrite compare_leb, a_le_leb. apply val_is_b2n.
+  - rewrite compare_gtb, a_gt_ltb. apply val_is_b2n.
+  - rewrite compare_geb, a_ge_leb. apply val_is_b2n.
+  - (* != *) unfold a_ne, a_eq. destruct (N.eqb_spec a b), (N.eq_dec a b); try contradiction; reflexivity.
+  - rewrite a_max_max. apply val_is_refl.
+  - rewrite a_min_min. apply val_is_refl.
+  - (* clamp *) destruct (N.leb_spec b cc) as [H|H]; [|reflexivity].
+    rewrite a_clamp_val by exact H. apply val_is_refl.
+  - (* y == x *) unfold a_eq. destruct (N.eqb_spec b a), (N.eq_dec a b); try congruence; reflexivity.
 Qed.
 
 (* ---------- Prop readings, independent of the boolean checker ---------- *)
@@ -211,6 +256,33 @@ Lemma order_raw_lemma a b :
   (a_eq a b = true <-> a = b).
 Proof.
   unfold a_cmp, a_eq. destruct (N.ltb_spec a b), (N.eqb_spec a b); repeat split; intros; try lia; try discriminate; reflexivity.
+Qed.
+
+(* ordering and equality follow the raw values: every derived / provided comparison form of the wrappers *)
+Lemma ordering_follows_raw_lemma a b :
+  a_partial_cmp a b = Some (a_cmp a b) /\
+  (a_partial_cmp a b = Some 0 <-> a < b) /\ (a_partial_cmp a b = Some 1 <-> a = b) /\
+  (a_partial_cmp a b = Some 2 <-> b < a) /\
+  (a_lt a b = true <-> a < b) /\ (a_le a b = true <-> a <= b) /\
+  (a_gt a b = true <-> b < a) /\ (a_ge a b = true <-> b <= a) /\
+  (a_eq a b = true <-> a = b) /\ (a_ne a b = true <-> a <> b) /\ a_eq a b = a_eq b a /\
+  a_max a b = N.max a b /\ a_min a b = N.min a b /\
+  (forall hi, b <= hi -> a_clamp a b hi = Val (N.max b (N.min a hi))) /\
+  (forall hi, hi < b -> exists s, a_clamp a b hi = Panic s).
+Proof.
+  split; [reflexivity|].
+  assert (C : forall k, a_partial_cmp a b = Some k <-> a_cmp a b = k).
+  { intros k. unfold a_partial_cmp. split; [intros E; congruence|intros ->; reflexivity]. }
+  destruct (order_raw_lemma a b) as (O0 & O1 & O2 & OE).
+  rewrite !C. split; [exact O0|]. split; [exact O1|]. split; [exact O2|].
+  rewrite a_lt_ltb, a_le_leb, a_gt_ltb, a_ge_leb, N.ltb_lt, N.leb_le, N.ltb_lt, N.leb_le.
+  split; [reflexivity|]. split; [reflexivity|]. split; [reflexivity|]. split; [reflexivity|].
+  split; [exact OE|]. split.
+  { unfold a_ne, a_eq. destruct (N.eqb_spec a b); cbn; split; intros; try discriminate; try contradiction; auto. }
+  split. { unfold a_eq. apply N.eqb_sym. }
+  split; [apply a_max_max|]. split; [apply a_min_min|]. split.
+  - intros hi H. apply a_clamp_val. exact H.
+  - intros hi H. exists 1. apply a_clamp_panic. exact H.
 Qed.
 
 (* checked results never depend on the build profile; the checked forms never panic *)
